@@ -298,8 +298,16 @@ Section Rows.
 End Rows.
 
 (* ------------------------------------------------------------------ projection *)
+(* a projection the property speaks about: existing columns, at least one *)
 Definition valid_cols (sch : list Z) (cols : option (list Z)) : Prop :=
-  match cols with None => True | Some cs => forall c, In c cs -> In c sch end.
+  match cols with None => True | Some cs => cs <> [] /\ forall c, In c cs -> In c sch end.
+
+Lemma concat_tables_fun sch cols :
+  valid_cols sch cols -> (fun ts : list (list row) => @Ok (list row) (concat_tables cols ts)) = (fun ts => Ok (concat ts)).
+Proof. destruct cols as [[|c cs]|]; simpl; auto. intros [H _]. congruence. Qed.
+
+Lemma concat_tables_valid sch cols ts : valid_cols sch cols -> concat_tables cols ts = concat ts.
+Proof. destruct cols as [[|c cs]|]; simpl; auto. intros [H _]. congruence. Qed.
 
 Definition sel (cols : option (list Z)) (rows : list row) : list row :=
   match cols with None => rows | Some cs => map (proj cs) rows end.
@@ -313,14 +321,14 @@ Qed.
 
 Lemma select_valid sch cols rows : valid_cols sch cols -> select sch cols rows = Ok (sel cols rows).
 Proof.
-  destruct cols as [cs|]; simpl; auto. intro V.
+  destruct cols as [cs|]; simpl; auto. intros [_ V].
   replace (forallb (fun c => zmem c sch) cs) with true; auto.
   symmetry. apply forallb_forall. intros c I. apply zmem_in. auto.
 Qed.
 
 Lemma select_lenient_valid sch cols rows : valid_cols sch cols -> select_lenient sch cols rows = sel cols rows.
 Proof.
-  destruct cols as [cs|]; simpl; auto. intro V.
+  destruct cols as [cs|]; simpl; auto. intros [_ V].
   replace (filter (fun c => zmem c sch) cs) with cs; auto.
   symmetry. clear rows. induction cs as [|c cs IH]; simpl; auto.
   replace (zmem c sch) with true by (symmetry; apply zmem_in; apply V; left; auto).
@@ -448,7 +456,8 @@ Section Agree.
     apply bind_ext. intros [es ce]. simpl.
     destruct files as [|f fs].
     - rewrite prune_p_nil. reflexivity.
-    - apply (mapM_flat (file_batches X E sch split cols ce) (read_one X E sch v cols ce)).
+    - rewrite (concat_tables_fun sch cols V).
+      apply (mapM_flat (file_batches X E sch split cols ce) (read_one X E sch v cols ce)).
       intros a _. rewrite file_batches_flat, read_one_rfp; auto.
   Qed.
 
@@ -536,6 +545,7 @@ Section Spec.
     = Ok (sel cols (filter (row_selected X es) (concat (map frows files)))).
   Proof.
     intros P Sh V ND WF NR. unfold scan_table. rewrite P. simpl.
+    rewrite (concat_tables_fun sch cols V).
     destruct files as [|f0 fs0]; [destruct cols; reflexivity|].
     remember (f0 :: fs0) as files. clear Heqfiles f0 fs0.
     rewrite filter_concat, map_map.
@@ -573,6 +583,7 @@ Section Spec.
     scan_table X E PA sch ids bounds v cols flt files = Err EEval.
   Proof.
     intros P V I Hr N. unfold scan_table. rewrite P. simpl.
+    rewrite (concat_tables_fun sch cols V).
     destruct files as [|f0 fs0]; [rewrite prune_p_nil in I; contradiction|].
     remember (f0 :: fs0) as files. clear Heqfiles.
     destruct (mapM (read_one X E sch v cols (Some e)) (prune_p ids bounds ps files)) as [ts|k] eqn:M; simpl.
@@ -846,3 +857,18 @@ Section Summary.
     cbv zeta in *. rewrite A1, A2, A3. auto.
   Qed.
 End Summary.
+
+(* ------------------------------------------------------------------ the empty projection *)
+Theorem api_agree_empty_projection_refuted :
+  ~ (forall (X : value -> value -> bool) (E : cexpr -> row -> bool) (PA : parg -> bool)
+            (sch : list Z) (ids : list (Z * Z)) (bounds : file -> list (Z * value) * list (Z * value))
+            (split : list row -> list (list row)) (v : bool) (cs : list Z) (flt : pyfilter) (files : list file),
+       (forall c, In c cs -> In c sch) -> (forall l, concat (split l) = l) ->
+       flat (scan_batches X E PA sch ids bounds split (Some cs) flt files) = scan_table X E PA sch ids bounds v (Some cs) flt files).
+Proof.
+  intro H.
+  specialize (H (fun _ _ => false) (fun _ _ => false) (fun _ => true) [0] [(0, 1)] (fun _ => ([], []))
+                (chunk 1) true [] [] [ {| frows := [ [(0, VInt 1)] ]; fcs := true |} ]).
+  assert (S : forall l : list row, concat (chunk 1 l) = l) by (intro l; apply chunk_concat; lia).
+  specialize (H (fun c F => match F with end) S). vm_compute in H. discriminate.
+Qed.
